@@ -793,8 +793,10 @@ func init() {
 		mix := fs.String("mix", "", "operation mix: '' | txn | read")
 		reads := fs.Int("reads", 0, "mode replay: number of extra reads per transition")
 		bigEvery := fs.Int("bigevery", 25, "every n-th behaviour uses values of 0.7-2 MiB")
+		noBigPrev := fs.Bool("nobigprev", false, "no prev_kv on range deletes in histories with big values (keeps the known finding DelPrevSizeCut, a C01 defect, out of checks of other properties)")
 		forceClass := fs.Int("class", -1, "force the key/value class of every behaviour (1 = long keys)")
 		_ = fs.Parse(args)
+		gen.NoBigPrev = *noBigPrev
 		tr, err := tracer.New(*out)
 		if err != nil {
 			die("%v", err)
